@@ -567,6 +567,10 @@ func init() {
 							return false
 						}
 						be, ok := ast.Unparen(ret.Results[0]).(*ast.BinaryExpr)
+						if ok && be.Op == token.LOR && sameCallClause(fi, be.Y, u, item, sf) {
+							groupedByCall[kf] = true
+							be, ok = ast.Unparen(be.X).(*ast.BinaryExpr)
+						}
 						if !ok || be.Op != token.EQL {
 							return false
 						}
